@@ -107,6 +107,25 @@ def checkA3C3Of (a3t c3t : List Rat) : Bool :=
 
 def checkA3C3 : Bool := checkA3C3Of A3coeff C3coeff
 
+/-- the I3 integrand expanded directly: `2(1 − ε)/D = (1 − ε)·1/(1 + u)` with `D = 2(1 + u)`, `u = D/2 − 1 = O(n, ε)` -/
+def i3Expansion : Trig Poly2 :=
+  let u := Trig.sub R3 (Trig.smul R3 (1 / 2) i3Denominator) (Trig.const R3.one)
+  Trig.scale R3 (Poly2.ofEps [1, -1]) (Trig.invOnePlus R3 u (N - 1))
+
+def eq2 (M : Nat) (p q : Poly2) : Bool := Poly2.isZero (Poly2.addZ (Poly2.trunc M p) (Poly2.smulZ (-1) (Poly2.trunc M q)))
+
+/-- `A3` = mean value of the expanded integrand (mod total degree `N`) -/
+def checkA3Of (a3t : List Rat) : Bool := eq2 N (a3Of a3t) (Trig.cosCoef R3 i3Expansion 0)
+
+/-- `2l·A3·C3_l` = coefficient of `cos 2lσ` of the expanded integrand, `1 ≤ l < N`, and the expansion has no other terms -/
+def checkC3Of (a3t c3t : List Rat) : Bool :=
+  ((List.range (N - 1)).all fun (i : Nat) =>
+    eq2 N (R3.smul (2 * ((i : Rat) + 1)) (R3.mul (a3Of a3t) (c3Of c3t (i + 1)))) (Trig.cosCoef R3 i3Expansion (i + 1)))
+  && (i3Expansion.c.drop N).all Poly2.isZero && i3Expansion.s.all Poly2.isZero
+
+def checkA3 : Bool := checkA3Of A3coeff
+def checkC3 : Bool := checkC3Of A3coeff C3coeff
+
 /-! ### I4:  C4 -/
 
 /-- one order more than the table: the relation below is divided by `e′² − k² sin²σ = O(n, ε)` -/
@@ -155,6 +174,24 @@ def checkC4Of (c4t : List Rat) : Bool :=
     (Trig.mul R4 (i4Integrand (c4Of c4t)) (Trig.sub R4 (Trig.const ep2Ser) ySer))
     (Trig.mul R4 (Trig.sub R4 (Trig.const (Poly2.compose (N + 1) (tSer (N + 1)) ep2Ser)) (tOfTrig ySer))
       (Trig.sinSeries R4 [R4.smul (1 / 2) R4.one]))
+
+/-- the divided difference `[t(x) − t(y)]/(x − y) = Σ_{m ≥ 1} t_m h_{m−1}(x, y)`, `h_k = Σ_{i+j=k} x^i y^j = x·h_{k−1} + y^k`,
+    for `x = e′²`, `y = k² sin²σ`, modulo total degree `N` -/
+def i4DividedDifference : Trig Poly2 :=
+  let x := ep2Ser
+  ((List.range (N + 1)).foldl (fun (acc : Trig Poly2 × Trig Poly2 × Trig Poly2) (k : Nat) =>
+    -- acc = (Σ_{m ≤ k} t_m h_{m−1}, h_k, y^k)
+    let yk1 := Trig.mul R3 acc.2.2 (Trig.cosSeries [R3.smul (1 / 2) k2Ser, [], R3.smul (-1 / 2) k2Ser])
+    (Trig.add R3 acc.1 (Trig.smul R3 ((tSer (N + 1)).coeff (k + 1)) acc.2.1),
+     Trig.add R3 (Trig.scale R3 x acc.2.1) yk1,
+     yk1)) (⟨[], []⟩, Trig.const R3.one, Trig.const R3.one)).1
+
+/-- `Σ_l (2l + 1) C4_l sin((2l + 1)σ) = [t(e′²) − t(k² sin²σ)]/(e′² − k² sin²σ) · sin σ/2`, the right side expanded directly, modulo total degree `N` -/
+def checkC4ExpansionOf (c4t : List Rat) : Bool :=
+  Trig.eq R3 (i4Integrand (c4Of c4t))
+    (Trig.mul R3 i4DividedDifference (Trig.sinSeries R3 [R3.smul (1 / 2) R3.one]))
+
+def checkC4Expansion : Bool := checkC4ExpansionOf C4coeff
 
 def checkC4 : Bool := checkC4Of C4coeff
 
